@@ -10,9 +10,19 @@
    A call's result is (return value, fragments handed to the handler, values written to the subscriber
    position counter, image afterwards).  `consumed fs k` = the first k frames, `frags off fs k` the data
    frames among them with their offsets, `aborted off fs k ab` the fragment answered Abort (if ab). *)
-Require Import V.Base.MachineInt V.Generated.GenConsts V.Model.LogBase V.Model.Descriptor V.Model.Reader V.Model.Image
-               V.Oracle.C05Cases V.Oracle.C05Oracle V.Proofs.ReaderProofs V.Proofs.ImageProofs
-               V.Proofs.C05OracleProofs V.Proofs.C05Readable V.Proofs.C05Repeat.
+Require Import V.Base.MachineInt.
+Require Import V.Generated.GenConsts.
+Require Import V.Model.LogBase.
+Require Import V.Model.Descriptor.
+Require Import V.Model.Reader.
+Require Import V.Model.Image.
+Require Import V.Oracle.C05Cases.
+Require Import V.Oracle.C05Oracle.
+Require Import V.Proofs.ReaderProofs.
+Require Import V.Proofs.ImageProofs.
+Require Import V.Proofs.C05OracleProofs.
+Require Import V.Proofs.C05Readable.
+Require Import V.Proofs.C05Repeat.
 Open Scope Z_scope.
 
 (* new_pos - old_pos = sum of the aligned lengths of the first k visible frames; the data frames among them are
